@@ -50,8 +50,8 @@ def sites(path):
     out = []
     for i in range(end):
         l = lines[i]
-        if SKIP.match(l) or not l.strip():
-            continue
+        if SKIP.match(l) or not l.strip() or "with_capacity" in l or l.strip().startswith('"'):
+            continue        # capacity hints and message strings only yield equivalent mutants
         code = l.split("//")[0]
         for a, b in SWAPS:
             for m in re.finditer(re.escape(a), code):
